@@ -12,6 +12,48 @@ TRUST = ('Trusted base: CPython semantics of the primitives named in the rule ta
 
 # id -> (technique, level text, design ref, extra level note)
 CHECKS = {
+    'C01': ('abstract interpretation of the parser handlers (E6) over all nesting shapes to depth 3/4 + lock-step bisimulation of the emitted '
+            'jump code with the structured big-step reading; for-loop data rules on silent statements; error shapes; stack-discipline rule for the induction step',
+            'Decides that the lowering templates of if/elif/else, while, for, break, continue (all nestings to depth 3 quick / 4 thorough, global scope, inside '
+            'functions, several functions) have the control flow of the structured reading, and that ill-nested programs are rejected; extends to all depths by '
+            'the stack-discipline argument. Does not execute programs or examine values; runtime jump semantics are C08.',
+            'DESIGN.md 4/C01', 'Known finding: continue inside while bypasses the loop test (known_findings.json).'),
+    'C03': ('table read-back of the evaluator: symbolic evaluation of the operator dispatch ladder over 13x13 host type atoms per operator, compared with the '
+            'language definition; syntactic/ordering rules for short circuit, evaluation order, if(), aliases',
+            'Decides operator dispatch/guard/operand-order structure ("unsupported operand types yield null", bool is not a number, string/datetime overloads, '
+            'short-circuit returns the operand value by value_boolean, each operand evaluated once left to right, if() lazy, aliases resolve to the same library '
+            'functions). Numerical results are not decided.',
+            'DESIGN.md 4/C03', ''),
+    'C04': ('abstract case analysis of the assignment target (locals None / empty / non-empty), who-writes-globals enumeration, lookup-order rules, '
+            'parameter-binding decision table read off _script_function, callback call-site rules',
+            'Decides the per-site scoping and calling-convention rules (assignment scope, fresh frames, lookup order, non-overwriting library injection by membership, '
+            'function statement replaces, binding table incl. "..." and missing/surplus arguments, callbacks keep options and get fresh argument lists).',
+            'DESIGN.md 4/C04', ''),
+    'C05': ('exception-escape (effect) analysis over the resolved call graph from execute_script/evaluate_expression with a frozen CPython raising-primitive table; '
+            'handler-structure rules for the function-call wrapper',
+            'Decides "no path from a raising primitive to the API boundary without a handler" for everything outside the library-call wrapper, and the wrapper\'s '
+            'handler order/behaviour. Causes of failures inside library functions are contained wholesale by the wrapper and not enumerated.',
+            'DESIGN.md 4/C05', ''),
+    'C07': ('E6 template extraction + schema-text validation (E5) of every emitted abstract model, per-scope label/jump multiset rules, monotone-counter rule, '
+            'reader/writer key-path agreement',
+            'Decides schema validity and label uniqueness/target/coverage of everything the parser emits for all shapes to the depth bound (and all programs via the '
+            'monotone counter + stack discipline), and that runtime/lint read only schema paths.',
+            'DESIGN.md 4/C07', ''),
+    'C08': ('CFG dominance/path rules on the statement loop (program counter), recognisers for label search/cache/conditional jump/return, effect analysis of '
+            'model-derived objects (immutability), schema-vs-dispatch exhaustiveness',
+            'Decides the statement-loop discipline (statements in order, first label of that name in the same list, unknown label error, per-invocation cache, '
+            'return, value_boolean truthiness), model immutability in runtime.py/model.py and the argument-list protocol. Exhaustive execution of small models is not attempted.',
+            'DESIGN.md 4/C08', ''),
+    'C09': ('CFG dominance of increment and limit test, finite-abstraction evaluation of the abort condition, package-wide who-writes/who-reads of the counter and '
+            'limit keys, options-object identity flow with copy/write-back (finally) recognition',
+            'Decides exactness (increment by 1 and test before every dispatch; abort iff limit>0 and count>limit), completeness (every statement-executing call shares '
+            'the counter or writes it back in a finally) and monotonicity (nothing else reads the limit).',
+            'DESIGN.md 4/C09', ''),
+    'C11': ('symbolic evaluation of value_type/value_compare ladders over 13 host type atoms (169 pairs), three-way form evaluation over the 3 orderings, '
+            'container-branch recognisers, consumer call-site rules',
+            'Decides the type partition, null-first, antisymmetry-by-construction of every scalar branch, element-wise container comparison, sign tests of the six '
+            'relational operators and the comparison usage of sort/indexOf/min/max/dataSort. Transitivity inside one host type is the host\'s.',
+            'DESIGN.md 4/C11', ''),
     'C12': ('forward may-taint dataflow (per-function CFG, inter-procedural by parameter binding) from maybe-float numbers '
             'to integer-only operand positions; type-test lint; literal-constructor rule',
             'Decides the structural clause of C12: every index/count/size/radix/digit-count position that a float-spelled '
